@@ -2335,7 +2335,7 @@ impl<'arena> PrettyFormatter<'arena> {
         RcDoc::text(match literal {
             | Literal::Integer(value) => format!("{value:?}"),
             | Literal::Float(value) => format!("{value:?}"),
-            | Literal::String(value) => format!("{value:?}"),
+            | Literal::String(value) => super::escape::quote_string(value.as_str()),
             | Literal::Char(value) => format!("{value:?}"),
         })
     }
